@@ -296,6 +296,16 @@ func (t *tr) expr(e ast.Expr) (string, string) {
 			t.addParam(n, lt)
 		}
 		return n, lt
+	case *ast.IndexExpr:
+		// element of an array / slice variable at a constant index: a free variable (header[2] -> header_2)
+		c, isChain := t.chain(x.X)
+		itv := t.info.Types[x.Index]
+		if !isChain || itv.Value == nil || !okT {
+			t.fail(e, "index expression %s (only variable[constant] of an integer element type)", t.src(e))
+		}
+		n := flat(c) + "_" + constant.ToInt(itv.Value).ExactString()
+		t.addParam(n, lt)
+		return n, lt
 	case *ast.UnaryExpr:
 		a, at := t.expr(x.X)
 		switch x.Op {
